@@ -281,3 +281,31 @@ def probe_sec1(c):
     def cp(d):
         return tuple(bits.compute_point(_b32(d))) == h_mul(c, d, h_G(c))
     return [("sec1", lambda d=d: dec(d)) for d in range(1, 7)] + [("compute_point", lambda d=d: cp(d)) for d in range(1, 7)]
+
+
+@contextlib.contextmanager
+def det_rng(seed, forced=()):
+    """Deterministic random source for code paths whose nonces are not the subject of the check (send_tx signing): the
+    `forced` draws first (clipped to the bound), then a PRNG seeded with `seed`.  Makes a run a function of its seed."""
+    import hashlib
+    import random as _random
+    import secrets
+
+    prng = _random.Random(int.from_bytes(hashlib.sha256(repr(seed).encode()).digest()[:8], "big"))
+    pending = list(forced)
+
+    def randbelow(bound):
+        if pending:
+            d = pending.pop(0)
+            return d if d < bound else bound - 1
+        return prng.randrange(bound)
+
+    def token_bytes(n=32):
+        return prng.randbytes(n)
+
+    o1, o2 = secrets.randbelow, secrets.token_bytes
+    secrets.randbelow, secrets.token_bytes = randbelow, token_bytes
+    try:
+        yield
+    finally:
+        secrets.randbelow, secrets.token_bytes = o1, o2
